@@ -163,7 +163,7 @@ func deliverBlock(ctx context.Context, run *common.Run, obs *c04obs, seed int64,
 	ch := make(chan *wire.MsgTx, 1000)
 	feedStop := make(chan struct{})
 	node.BeginHandler(func() { close(feedStop) })
-	delivered := 0
+	var delivered int64
 	go func() {
 		defer close(ch)
 		for i, tx := range txs {
@@ -172,7 +172,7 @@ func deliverBlock(ctx context.Context, run *common.Run, obs *c04obs, seed int64,
 			}
 			select {
 			case ch <- tx:
-				delivered++
+				atomic.AddInt64(&delivered, 1)
 			case <-feedStop:
 				return
 			}
@@ -192,7 +192,10 @@ func deliverBlock(ctx context.Context, run *common.Run, obs *c04obs, seed int64,
 	atomic.AddInt64(&obs.cases, 1)
 	run.Eval(1)
 	run.DistinctStr(c.String())
-	w := map[string]interface{}{"kind": "block-delivery", "case": c.String(), "seed": seed}
+	w := map[string]interface{}{"kind": "block-delivery", "case": c.String(), "seed": seed, "txs_delivered": atomic.LoadInt64(&delivered), "handler_error": fmt.Sprint(herr)}
+	if c.Fault != "" || c.Corruption != "" {
+		run.Sample(w)
+	}
 	viol := func(clause, sig, detail string) {
 		run.Violate(common.Violation{Clause: clause, Signature: sig, Detail: c.String() + ": " + detail, Witness: w})
 	}
@@ -475,6 +478,9 @@ func c04EndToEnd(ctx context.Context, run *common.Run, obs *c04obs, idx int) {
 	run.Eval(1)
 	run.DistinctStr(fmt.Sprintf("e2e/%s/%d", mode, n))
 	w := map[string]interface{}{"kind": "block-end-to-end", "mode": mode, "txs": n, "case": idx, "seed": run.Seed}
+	if idx < 2 {
+		run.Sample(w)
+	}
 	if !got {
 		if mode == "other-block" {
 			// the node ignores a block it did not ask for; the request stays pending (manager-level timeout)
